@@ -587,6 +587,9 @@ func (h *vauHarness) full(f []string) string {
 	switch f[1] {
 	case "kv":
 		rnd := basics.Round(vh.U(strings.TrimPrefix(f[2], "r=")))
+		if _, err := au.LookupKv(rnd, "\x00verif-no-such-key"); err != nil { // the round check, also when the universe is still empty
+			return vauErr(err)
+		}
 		var keys []string
 		for k := range h.keys {
 			keys = append(keys, k)
@@ -825,7 +828,7 @@ func (g *vauHist) genBlock() string {
 	everP, everH := map[vauRK]bool{}, map[vauRK]bool{}
 	dirtyK := map[string][]byte{}
 	hadK := map[string]bool{}
-	var creat []string
+	creat := map[uint64]string{} // net creatable change of the round (the last one wins, as in StateDelta.Creatables)
 	touchR := func(k vauRK) {
 		if _, ok := dirtyR[k]; !ok {
 			dirtyR[k] = g.res[k]
@@ -867,7 +870,7 @@ func (g *vauHist) genBlock() string {
 				touchR(k)
 				g.res[k] = vauRes{p: vauU(uint64(r.Intn(3))), h: vauU(uint64(r.Intn(50)))}
 				setA(c, func(a *vauAcctSt) { a.ta++; a.tap++ })
-				creat = append(creat, fmt.Sprintf("C %d S 1 %d", cidx, c))
+				creat[cidx] = fmt.Sprintf("C %d S 1 %d", cidx, c)
 			}
 		case w < 10: // asset opt-in
 			if k, ok := g.pickRes(false, func(k vauRK, x vauRes) bool { _, live := g.creator[k.cidx]; return live && x.h == nil }); ok {
@@ -903,7 +906,7 @@ func (g *vauHist) genBlock() string {
 					g.res[k] = vauRes{}
 					delete(g.creator, k.cidx)
 					setA(k.id, func(a *vauAcctSt) { a.ta--; a.tap-- })
-					creat = append(creat, fmt.Sprintf("C %d S 0 %d", k.cidx, k.id))
+					creat[k.cidx] = fmt.Sprintf("C %d S 0 %d", k.cidx, k.id)
 				}
 			}
 		case w < 19: // app create
@@ -918,7 +921,7 @@ func (g *vauHist) genBlock() string {
 				x.p = vauU(uint64(r.Intn(3)))
 				g.res[k] = x
 				setA(c, func(a *vauAcctSt) { a.tapp++ })
-				creat = append(creat, fmt.Sprintf("C %d L 1 %d", cidx, c))
+				creat[cidx] = fmt.Sprintf("C %d L 1 %d", cidx, c)
 			}
 		case w < 22: // app opt-in / local state change
 			if k, ok := g.pickRes(true, func(k vauRK, x vauRes) bool { _, live := g.creator[k.cidx]; return live || x.h != nil }); ok {
@@ -950,7 +953,7 @@ func (g *vauHist) genBlock() string {
 					x.p = nil
 					delete(g.creator, k.cidx)
 					setA(k.id, func(a *vauAcctSt) { a.tapp-- })
-					creat = append(creat, fmt.Sprintf("C %d L 0 %d", k.cidx, k.id))
+					creat[k.cidx] = fmt.Sprintf("C %d L 0 %d", k.cidx, k.id)
 				}
 				g.res[k] = x
 			}
@@ -1028,7 +1031,9 @@ func (g *vauHist) genBlock() string {
 		}
 		items = append(items, fmt.Sprintf("K %s %s %s", vauHexB([]byte(k)), vauHexB(now), vauHexB(old)))
 	}
-	items = append(items, creat...)
+	for _, c := range vauSortedKeys(creat) {
+		items = append(items, creat[c])
+	}
 	g.latest++
 	return strings.Join(items, " | ")
 }
@@ -1166,7 +1171,14 @@ func (g *vauHist) genQueries(n int) []string {
 		return g.anyAcct()
 	}
 	for i := 0; i < n; i++ {
-		switch r.Intn(20) {
+		kind := r.Intn(20)
+		switch vh.Profile() { // C08 asks point queries only, C10 pages only; default: both
+		case "c08":
+			kind = r.Intn(13)
+		case "c10":
+			kind = 13 + r.Intn(7)
+		}
+		switch kind {
 		case 0, 1, 2:
 			qs = append(qs, fmt.Sprintf("q acct r=%d %d", rnd(), g.anyAcct()))
 		case 3, 4, 5, 6:
